@@ -20,7 +20,7 @@ import (
 
 func init() {
 	register(&Check{ID: "C09", Level: "exploration",
-		Rule: "generated response messages (0-40 records, at most one root-owned OPT with <= 64 option octets at any position of the additional section) x size limits " +
+		Rule: "generated response messages (0-40 records; every 40th one 400-800 address records under one long owner name: a few kB compressed, 80-160 kB uncompressed; at most one root-owned OPT with <= 64 option octets at any position of the additional section) x size limits " +
 			"(0, 1..511, 512..65535 incl. Len() and every record end, each -1/+0/+1, with and without the OPT length added) x compression on/off x UDP/TCP calling convention; " +
 			"one (message, compress, size, convention) tuple = one evaluation; non-trivial = the limit forces an omission or lies within +-1 of Len() or of a record end; distinct by the tuple",
 		Run: runC09})
@@ -74,7 +74,15 @@ func c09InProcess(c *Ctx) {
 			o.BigP = 0.6 // messages beyond 65535 octets for the stream conventions
 		}
 		m, _ := refmsg.Gen(r, o)
-		w, _ := refmsg.Encode(m, r, 0.5)
+		pComp := 0.5
+		if idx%40 == 7 {
+			// a record set that is small on the wire thanks to name compression (a few kB) and far
+			// beyond 65535 octets without it: what "no limit" (the cache's encoding) and the 65535
+			// limit of the stream conventions mean differs exactly here
+			m = c09HugeMsg(r)
+			pComp = 1
+		}
+		w, _ := refmsg.Encode(m, r, pComp)
 		_, play := refmsg.Encode(m, nil, 0)
 		L := m.WireLen()
 		optLen := 0
@@ -141,6 +149,19 @@ func c09InProcess(c *Ctx) {
 	if c.Ev.Counter("cases_with_omission") == 0 {
 		c.Inconclusive("no case forced an omission")
 	}
+}
+
+func c09HugeMsg(r *gen.R) *refmsg.Msg {
+	owner := [][]byte{[]byte(strings.Repeat("a", r.Range(40, 63))), []byte(strings.Repeat("b", r.Range(40, 63))), []byte(strings.Repeat("c", r.Range(40, 63))), []byte("test")}
+	m := &refmsg.Msg{ID: uint16(r.Intn(65536)), Bits: refmsg.BitQR | refmsg.BitRD | refmsg.BitRA}
+	m.Questions = []refmsg.Question{{Name: owner, Type: 1, Class: 1}}
+	for i, n := 0, r.Range(400, 800); i < n; i++ {
+		m.Answers = append(m.Answers, refmsg.RR{Name: owner, Type: 1, Class: 1, TTL: 300, Data: []refmsg.Part{{Raw: []byte{10, byte(i >> 16), byte(i >> 8), byte(i)}}}})
+	}
+	if r.Bool() {
+		m.Additionals = append(m.Additionals, refmsg.RR{Name: nil, Type: refmsg.TypeOPT, Class: 1232, TTL: 0, Data: []refmsg.Part{{Raw: nil}}})
+	}
+	return m
 }
 
 func rrIndex(list []refmsg.RR, used []bool, x *refmsg.RR) int {
